@@ -132,6 +132,13 @@ def make(rng, name, node=False, with_starts=None, with_ignore=None, with_cons=No
                 kw["length_attr"] = "len"
                 kw["subpath_constraints_coverage_length"] = rng.choice([0.5, 0.75, 1])
                 info["coverage_length"] = kw["subpath_constraints_coverage_length"]
+            elif not cyclic and not node and r_cov < 0.7:
+                # a length attribute WITHOUT a length coverage: coverage is still counted in edges (the documented meaning of
+                # subpath_constraints_coverage), the lengths must have no influence
+                for e in G.edges():
+                    if rng.random() < 0.8:
+                        G.edges[e]["len"] = rng.choice([2, 3, 5, 7])
+                kw["length_attr"] = "len"
     # additional starts / ends
     if name in HAS_STARTS and (rng.random() < 0.3 if with_starts is None else with_starts) and G.number_of_nodes() > 2:
         st = [v for v in G.nodes() if rng.random() < 0.3]
